@@ -142,9 +142,15 @@ def rate_order(t, n):
 
 
 def small_crc32(r):
-    """a CRC-32 value of a last block: mostly any non-zero value, one in three with one to three leading zero octets (a value that
+    """a CRC-32 value of a last block: mostly any non-zero value, two in seven with one to three leading zero octets (a value that
     fits fewer than four octets - conversions that drop leading zero octets take such a value out of the CRC-9's input)"""
-    k = r.randrange(6)
+    k = r.randrange(7)
+    if k == 6:
+        # one to three set bits only: the error on exactly those leaves four zero octets, which are still four octets under the CRC-9
+        v = 0
+        for _ in range(r.choice([1, 1, 2, 3])):
+            v |= 1 << r.randrange(32)
+        return v
     return r.randrange(1, 1 << 32) if k < 4 else r.randrange(1, 1 << (8 * r.choice([1, 2, 3])))
 
 
@@ -357,6 +363,18 @@ def corrupt_case(args):
                         bb = b2.copy()
                         bb.invert(t)
                         rec([t], classify(case, base2, bb), len(b2), not bb[lo:hi].any())
+            # aimed: the error (weight 1..3) that clears every set bit of a light CRC-32 - the block then ends in four zero octets
+            for _ in range(1500 if quick else 6000):     # each escapes a CRC-9 computed without the four octets with probability 2^-9
+                o2 = case.build(rng)
+                while bin(o2.crc32).count("1") > 3:
+                    o2 = case.build(rng)
+                b2 = case.ser(o2)
+                base2 = fields(case.parse(b2.copy()))
+                pat = [t for t in range(len(b2) - 32, len(b2)) if b2[t]]
+                bb = b2.copy()
+                for t in pat:
+                    bb.invert(t)
+                rec(pat, classify(case, base2, bb), len(b2), not bb[lo:hi].any())
         # aimed at the all-zero check field: flip exactly the set bits of the check field (+ one more bit)
         setbits = [t for t in range(lo, hi) if bits[t]]
         if setbits:
